@@ -826,6 +826,7 @@ def spec_check(ctx, budget):
     R.spec_tree_comparisons(ctx, out, rng, small, budget, _fail)
     R.spec_prune_routes(ctx, out, rng, small, budget, _fail)
     R.spec_queries_io(ctx, out, rng, small, budget, _fail)
+    R.spec_nonunique_internal(ctx, out, rng, small, budget, _fail)
     return out
 
 
@@ -896,7 +897,9 @@ def _replay_route(inp):
         from pathlib import Path
 
         t = U.unfrac_json(inp["tree"])
-        if "keep" in inp:
+        if "built" in inp:
+            R.nonunique_case(out, _fail, t, inp["built"], rng)
+        elif "keep" in inp:
             R.prune_case(out, _fail, t, inp.get("kind", "replay"), list(inp["keep"]), rng)
         else:
             with tempfile.TemporaryDirectory(prefix="verif_C09_replay_") as d:
